@@ -89,7 +89,7 @@ for _pid, _p in PROPS.items():
 
 # crate-internal helper routines exercised directly (hk_* observations, judged against the translated source and the helper models)
 for _pid, _fams in {"C01": ["HKARITH", "HKROUND", "HKPACK"], "C02": ["HKROUND", "HKARITH"], "C03": ["HKARITH"], "C04": ["HKPACK"], "C09": ["HKPACK"],
-                    "C10": ["HKPACK"], "C11": ["HKPACK"], "C13": ["HKPACK"], "C15": ["HKARITH", "HKROUND", "HKPACK"]}.items():
+                    "C10": ["HKPACK"], "C11": ["HKPACK"], "C13": ["HKPACK"], "C15": ["HKARITH", "HKROUND", "HKPACK", "HKMIDI"], "C05": ["HKMIDI"]}.items():
     PROPS[_pid]["helper_families"] = _fams
 for _pid in PROPS:
     PROPS[_pid]["static_modules"] = PROPS[_pid]["static_modules"] + ["DecProofs.Static.Translated"]
